@@ -61,3 +61,43 @@ package message
 //@   nopanic
 //@   pure
 //@   ensures result == m.noAck [is-nack-channel]
+
+//@ func (Metadata).Get
+//@   nopanic
+//@   pure
+//@   ensures has(m, key) ==> result == m[key] [present]
+//@   ensures !has(m, key) ==> result == "" [absent-is-empty]
+
+//@ func (Metadata).Set
+//@   requires m != nil
+//@   nopanic
+//@   ensures has(m, key) && m[key] == value [set]
+//@   ensures forall k string :: k != key ==> has(m, k) == old(has(m, k)) && m[k] == old(m[k]) [others-unchanged]
+//@   ensures len(m) == old(len(m)) + (old(has(m, key)) ? 0 : 1) [len]
+//@   modifies map(m)
+
+//@ spec sameMetadata(a Metadata, b Metadata) bool := forall k string :: has(a, k) == has(b, k) && (has(a, k) ==> a[k] == b[k])
+//@ spec cardLemma(a Metadata, b Metadata) bool := ((forall k string :: has(a, k) ==> has(b, k)) && len(a) == len(b) ==> (forall k string :: has(b, k) ==> has(a, k))) && ((forall k string :: has(a, k) == has(b, k)) ==> len(a) == len(b))
+
+//@ func (*Message).Equals
+//@   requires m != nil && toCompare != nil
+//@   assume cardLemma(m.Metadata, toCompare.Metadata) [finite-set-cardinality]
+//@   nopanic
+//@   ensures result <==> (m.UUID == toCompare.UUID && bytes(m.Payload) == bytes(toCompare.Payload) && sameMetadata(m.Metadata, toCompare.Metadata)) [iff]
+//@   inv loop 1: forall k string :: visited(k) ==> has(m.Metadata, k) && has(toCompare.Metadata, k) && m.Metadata[k] == toCompare.Metadata[k] [visited-keys-agree]
+//@   modifies nothing
+
+//@ func (*Message).Copy
+//@   requires m != nil
+//@   nopanic
+//@   ensures result != nil && fresh(result) && result != m [fresh]
+//@   ensures result.UUID == m.UUID && result.Payload == m.Payload [same-uuid-payload]
+//@   ensures fresh(result.Metadata) && sameMetadata(result.Metadata, m.Metadata) [own-equal-metadata]
+//@   ensures result.ackSentType == noAckSent && fresh(result.ack) && fresh(result.noAck) && result.ack != result.noAck && !closed(result.ack) && !closed(result.noAck) [unsettled-own-channels]
+//@   ensures result.ctx == nil [context-not-propagated]
+//@   inv loop 1: msg != nil && fresh(msg) && msg != m && fresh(msg.Metadata) && msg.Metadata != m.Metadata [copy-is-fresh]
+//@   inv loop 1: forall k string :: visited(k) ==> has(msg.Metadata, k) && msg.Metadata[k] == m.Metadata[k] [visited-copied]
+//@   inv loop 1: forall k string :: has(msg.Metadata, k) ==> visited(k) && has(m.Metadata, k) [nothing-else]
+//@   inv loop 1: msg.UUID == m.UUID && msg.Payload == m.Payload && msg.ctx == nil && msg.ackSentType == noAckSent && fresh(msg.ack) && fresh(msg.noAck) && msg.ack != msg.noAck && !closed(msg.ack) && !closed(msg.noAck) [rest-as-constructed]
+//@   modifies loop 1: map(msg.Metadata)
+//@   modifies nothing
